@@ -614,7 +614,7 @@ def run(ctx):
         if s['auto'] or s.get('entry'):
             continue
         for k, en in entries.items():
-            if not en['used'] and en['coarse'] and en['coarse'] == s['coarse']:
+            if not en['used'] and en['coarse'] and (s['coarse'] == en['coarse'] or (isinstance(en['coarse'], tuple) and s['coarse'] in en['coarse'])):
                 s['entry'] = k
                 s['moved'] = True
                 en['used'] = True
